@@ -15,7 +15,7 @@ search():  the identities of the property evaluated on the real code only, again
            time_prob formula + compounding + range + monotonicity in dt, rate_prob formula, to-roundtrip,
            array = scalar, arithmetic, rejections, parent-path equivalence.
 """
-import math, struct, itertools, decimal
+import sys, math, struct, itertools, decimal
 from fractions import Fraction as Fr
 import numpy as np
 
@@ -45,19 +45,8 @@ PROBKINDS = ('time_prob', 'rate_prob', 'beta')
 
 
 def drive(ctx, lines, driver=None, modules=None):
-    """ ctx.drive with a retry: when another check is rebuilding the shared Lean project at this moment the
-        driver can find an .olean missing; rebuild the driver's modules under the project lock and try again """
-    import os, subprocess, time
-    from harness import framework
-    driver = driver or DRIVER; modules = modules or DRIVER_MODULES
-    for attempt in range(4):
-        try:
-            return ctx.drive(driver, lines)
-        except framework.DriverError as e:
-            if attempt == 3 or not ('does not exist' in str(e) or 'could not be loaded' in str(e) or 'failed to read' in str(e)):
-                raise
-            time.sleep(2 + 3 * attempt)
-            subprocess.run([os.path.join(framework.VERIF, 'tools', 'lake'), 'build'] + list(modules), capture_output=True, timeout=3000)
+    """ ctx.drive (the framework serialises checks and rebuilds a missing .olean itself; no locking here) """
+    return ctx.drive(driver or DRIVER, lines)
 
 
 # ---------------------------------------------------------------------------
@@ -179,13 +168,20 @@ def parse_state(s):
                 factor=None if p[5] == '~' else Fr(p[5]), init=p[6] == '1', v=val_from_tok(p[7]), values=val_from_tok(p[8]))
 
 
+def close_prob(m, i, rel, abs_):
+    """ probabilities outside [0,1] (negative dt: exp of a large positive number) carry the relative error of the exponent """
+    if abs_ and m != 'nonfinite' and i != 'nonfinite' and abs(m) > 2:
+        rel = rel * 2 * (1 + math.log(float(abs(1 - m))))
+    return close(m, i, rel, abs_)
+
+
 def cmp_val(m, i, rel, abs_):
     if (m is None) != (i is None): return False
     if m is None: return True
     if isinstance(m, list) != isinstance(i, list): return False
     if isinstance(m, list):
-        return len(m) == len(i) and all(close(a, b, rel, abs_) for a, b in zip(m, i))
-    return close(m, i, rel, abs_)
+        return len(m) == len(i) and all(close_prob(a, b, rel, abs_) for a, b in zip(m, i))
+    return close_prob(m, i, rel, abs_)
 
 
 def cmp_state(m, o, prob, vrel=4 * U):
@@ -240,9 +236,10 @@ def run_session(case):
     steps = []
     line = f"{mode} new {kind} {tok_val(case['v'])} {tok_unit(case['unit'])} {tok_unit(case['punit'])} {tok_opt(case['pdt'])} {tok_opt(case['sdt'])}"
     cur = None; last = None
+    user = pyval(case['v']); user_orig = user.copy() if isinstance(user, np.ndarray) else None
     try:
-        cur = cls(pyval(case['v']), unit=case['unit'], parent_unit=case['punit'], parent_dt=case['pdt'], self_dt=case['sdt'])
-        steps.append(dict(line=line, res='ok', obs=observe(cur), extra=None))
+        cur = cls(user, unit=case['unit'], parent_unit=case['punit'], parent_dt=case['pdt'], self_dt=case['sdt'])
+        steps.append(dict(line=line, res='ok', obs=observe(cur), extra=None, user=user, user_orig=user_orig))
     except Exception as e:
         steps.append(dict(line=line, res=err_kind(e), obs=None, extra=None))
         return steps
@@ -287,6 +284,21 @@ def run_session(case):
                 elif name == 'rdiv': r = c / cur
                 else: r = cur ** c
                 extra = ('val', obs_val(r)); info = dict(c=c)
+            elif name in ('powr', 'rpowr'):
+                c = op[1]
+                vals = cur.values
+                flatv = [] if vals is None else [float(t) for t in np.atleast_1d(np.asarray(vals, dtype=float)).tolist()]
+                if vals is not None and ((name == 'powr' and float(c) != int(c) and any(t < 0 for t in flatv)) or (name == 'powr' and c < 0 and any(t == 0 for t in flatv))):
+                    continue   # complex / infinite results: outside the compared domain
+                line = f"{mode} {name} {tok_num(c)}"
+                r = cur ** c if name == 'powr' else c ** cur
+                extra = ('val', obs_val(r)); info = dict(c=c)
+            elif name == 'draws':
+                # what Dist.postprocess_timepar does with the variates of a wrapped distribution
+                line = f"{mode} draws " + (','.join(tok_num(t) for t in op[1]) if op[1] else '-')
+                sync = True
+                cur.v = np.array(op[1], dtype=float)
+                cur.update_cached()
             elif name in ('iadd', 'isub', 'imul', 'idiv'):
                 line = f"{mode} {name} {tok_num(op[1])}"
                 sync = True
@@ -320,6 +332,9 @@ def run_session(case):
 def compare_session(case, steps, out):
     """ -> None or dict(at, why) """
     prob = case['kind'] in PROBKINDS
+    u0 = steps[0].get('user_orig') if steps else None
+    if u0 is not None and not np.array_equal(steps[0]['user'], u0, equal_nan=True):
+        return dict(at=len(steps) - 1, line=steps[-1]['line'], why=f"the user's input array was modified by the call sequence: {u0.tolist()} -> {steps[0]['user'].tolist()}")
     for k, (st, ml) in enumerate(zip(steps, out)):
         if ml in ('bad-op',):
             return dict(at=k, line=st['line'], why='the model does not understand the operation line')
@@ -372,6 +387,12 @@ def compute_tol(op, c, prob, vals, result):
     if op == 'rdiv':
         relv = 32 * U + (a / float(vmin) if vmin else 0.0)
         return 2 * relv, 0.0
+    if op == 'powr':
+        relv = 32 * U + (a / float(vmin) if vmin else 0.0)
+        return min((abs(float(c)) + 1) * relv * 2, 0.5), (a if vmin == 0 else 0.0) + 1e-290
+    if op == 'rpowr':
+        lc = abs(math.log(float(c))) if float(c) > 0 else 1.0
+        return min(lc * (float(vmax) * 32 * U + a) * 2 + 32 * U, 0.5), 1e-290
     if op == 'pow':
         n = max(int(c), 1)
         relv = 32 * U + (a / float(vmin) if vmin else 0.0)
@@ -385,6 +406,7 @@ def compute_tol(op, c, prob, vals, result):
 def gen_dt(rng, allow_none=True):
     r = rng.random()
     if allow_none and r < 0.08: return None
+    if allow_none and r < 0.10: return rng.choice([-1.0, -0.5, -2])
     if r < 0.35: return rng.choice(DT_INT)
     if r < 0.6: return rng.choice(DT_DYADIC)
     if r < 0.9: return rng.choice(DT_DEC)
@@ -582,7 +604,10 @@ def correspond(ctx):
             break
     # --- (2) sessions on real TimePar objects
     nsess = ctx.budget(700, 6000)
-    sessions = [sanitize(gen_session(rng)) for _ in range(nsess)]
+    from harness.props import c06_round2 as r2
+    me = sys.modules[__name__]
+    r2.corr_as_int(ctx, me)
+    sessions = r2.fixed_sessions(rng) + [sanitize(gen_session(rng)) for _ in range(nsess)]
     all_lines = []; per = []
     for c in sessions:
         try:
@@ -609,6 +634,8 @@ def correspond(ctx):
             ctx.broke('correspondence', 'C06.session', f"ss.{c['kind']} call sequence diverges from Model/TimePar.lean at step {div['at']} `{div['line']}`: {div['why']}",
                       data=dict(case=c, lines=lines[:div['at'] + 1], divergence=div))
             break
+    # --- (2b) distributions wrapped in a TimePar
+    r2.corr_dist_wrapping(ctx, me)
     # --- (3) Module.init_time
     nmod = ctx.budget(25, 200)
     lines = []; per = []
@@ -939,6 +966,16 @@ ORACLES = dict(ratio=o_ratio, ratio_as_int=o_ratio_as_int, steps=o_steps, timepr
                roundtrip=o_roundtrip, array_eq_scalar=o_array_eq_scalar, arith=o_arith, reject=o_reject, parent_equiv=o_parent_equiv)
 
 
+def _r2(name):
+    def f(a):
+        from harness.props import c06_round2 as r2
+        return r2.ORACLES[name](a, sys.modules[__name__])
+    return f
+
+
+ORACLES.update({k: _r2(k) for k in ('arith_consistency', 'no_alias', 'nan', 'dist_wrap', 'pow')})
+
+
 def run_oracle(ctx, name, args):
     try:
         fails = ORACLES[name](args)
@@ -1019,6 +1056,8 @@ def search(ctx):
                     run_oracle(ctx, 'reject', dict(kind=kind, how=how, v=v, unit=rng.choice(CANON), punit=rng.choice(CANON), pdt=pos_dt(rng)))
     for kind in ('time_prob', 'beta', 'rate_prob'):
         run_oracle(ctx, 'reject', dict(kind=kind, how='neg', v=0.5, unit='day', punit='week', pdt=1.0))
+    from harness.props import c06_round2 as r2
+    r2.search(ctx, sys.modules[__name__], run_oracle)
     # the stored inputs of the known findings (re-run on every invocation)
     for k in ctx.known:
         r = k.get('replay')
